@@ -783,6 +783,7 @@ def run(ctx):
                        "CoverageChecker::validate_binder", "CoverageChecker::validate_match", "CoverageChecker::validate_comatch",
                        "CoverageChecker::validate_pattern_matrix", "CoverageChecker::missing_patterns"})
     c04.rule_binder_coverage(ctx)
+    c04.rule_irrefutable(ctx)
     ctx.assume("the typing rules themselves (progress/preservation), the coverage algorithm (C04) and termination of "
                "normalisation are NOT decided")
     ctx.assume("ResultKont errors are already recorded in Tycker::errors (append-only, checked), so dropping a ResultKont cannot "
